@@ -2704,6 +2704,10 @@ func (e *Eval) instr(fr *frame, in ssa.Instruction, st State) {
 		}
 		if p, ok := base.(PtrV); ok && p.O != nil && p.O.Kind == okVec && p.O.Struct {
 			if vc, ok := st[p.O].(VecC); ok && x.Field < len(vc.Elems) {
+				if af, ok := vc.Elems[x.Field].(ArrFieldV); ok {
+					fr.env[x] = PtrV{O: af.O} // the address of the array the field holds
+					break
+				}
 				fr.env[x] = PtrV{Elem: &ElemRef{Base: base, Idx: CInt(int64(x.Field))}}
 				break
 			}
@@ -2986,6 +2990,16 @@ func (e *Eval) alloc(fr *frame, x *ssa.Alloc, st State) AV {
 		o.Struct = true
 		elems := make([]AV, stt.NumFields())
 		for i := range elems {
+			if at, ok := stt.Field(i).Type().Underlying().(*types.Array); ok {
+				if b, ok := at.Elem().Underlying().(*types.Basic); ok && b.Kind() == types.Uint8 {
+					// a byte array kept in the struct (a fixed buffer next to its cursor): an
+					// object of its own, like a local array
+					fo := e.newObj(okCell, x, "byte array field "+stt.Field(i).Name())
+					e.setContentFresh(st, fo, CellC{BytesV{LenKnown: true, Len: K(at.Len()), HasVal: true, Val: Layout{}, Src: "zero"}})
+					elems[i] = ArrFieldV{O: fo}
+					continue
+				}
+			}
 			elems[i] = e.zeroOf(stt.Field(i).Type())
 		}
 		e.setContentFresh(st, o, VecC{Elems: elems})
@@ -4130,6 +4144,56 @@ func (e *Eval) slice(fr *frame, x *ssa.Slice, st State) AV {
 		case VecC:
 			if x.Low == nil && x.High == nil {
 				return SliceV{O: p.O}
+			}
+			// arr[:0] of a local array of plain values: an empty slice to append to (a pre-sized
+			// buffer on the stack).  What is appended lives in vectors of its own; the array
+			// itself is no longer known, should anything read it directly
+			if hi, ok := e.val(fr, x.High).(IntV); ok && x.High != nil && x.Max == nil && !p.O.Struct {
+				lo := int64(0)
+				if x.Low != nil {
+					if l, ok := e.val(fr, x.Low).(IntV); ok {
+						if c, isC := l.Const(); isC {
+							lo = c
+						} else {
+							lo = -1
+						}
+					}
+				}
+				if h, isC := hi.Const(); isC && h > 0 && lo == 0 && h <= int64(len(c.Elems)) {
+					// wordBuf[:n] of a local [N]string that nothing has written yet: n empty strings
+					// to be filled in, like make([]string, n) (the array itself is not followed further)
+					if al, isAlloc := x.X.(*ssa.Alloc); isAlloc && isStringSlice(x.Type()) {
+						fresh := true
+						for _, el := range c.Elems {
+							if sv, ok := el.(StrV); !ok || sv.Kind != skConst || sv.S != "" {
+								fresh = false
+							}
+						}
+						nSlices := 0
+						for _, ref := range *al.Referrers() {
+							if _, isSl := ref.(*ssa.Slice); isSl {
+								nSlices++
+							} else if _, dbg := ref.(*ssa.DebugRef); !dbg {
+								fresh = false // the array is also used directly
+							}
+						}
+						if fresh && nSlices == 1 {
+							e.setContent(fr, st, p.O, topContent(p.O, "backing array of a slice"))
+							o := e.newObj(okArr, x, "slice of a local [N]string")
+							e.setContentFresh(st, o, &ArrC{N: CInt(h), id: o.ID})
+							return SliceV{O: o}
+						}
+					}
+				}
+				if h, isC := hi.Const(); isC && h == 0 && lo == 0 {
+					if _, isAlloc := x.X.(*ssa.Alloc); isAlloc {
+						e.setContent(fr, st, p.O, topContent(p.O, "backing array of a slice that is appended to"))
+						o := e.newObj(okVec, x, "empty slice of a local array")
+						o.Grown = true
+						e.setContentFresh(st, o, VecC{})
+						return SliceV{O: o}
+					}
+				}
 			}
 		}
 	}
